@@ -47,7 +47,7 @@ func TestC06(t *testing.T) {
 		defer mc.Guard(t)
 		replica := newCollection(sch, column.Options{})
 		defer replica.Close()
-		cfg := TxnCfg{Prop: "C06", MaxSteps: 10, Rollback: true, Deletes: true, Inserts: true, Merges: true, OwnUpdates: true, KeyOps: true, Direct: true,
+		cfg := TxnCfg{Prop: "C06", MaxSteps: 10, Peeks: true, Rollback: true, Deletes: true, Inserts: true, Merges: true, OwnUpdates: true, KeyOps: true, Direct: true,
 			NoStoreOnDel: KFActive("f11-store-and-delete-same-txn"), NoOpAfterLenMerge: KFActive("f15-difflen-merge-reorder")}
 		replayed := 0
 		sync := func(t *rapid.T) {
